@@ -40,6 +40,11 @@ impl<const W: usize> Window<W> {
     pub fn new_at(buf_addr: usize, log_bits: usize, max_log_region: usize) -> Self {
         let lbr: usize = kani::any();
         kani::assume(lbr <= max_log_region);
+        Self::new_geom(buf_addr, log_bits, lbr)
+    }
+
+    /// Same with a given region size (may be concrete, which keeps shift amounts constant for the solver).
+    pub fn new_geom(buf_addr: usize, log_bits: usize, lbr: usize) -> Self {
         // a region has at least as many data bits as metadata bits (log_data_meta_ratio >= 0)
         kani::assume(lbr + 3 >= log_bits);
         let offset: usize = kani::any();
